@@ -70,6 +70,10 @@ def build(s, fr, top=True):
     if k == 'polygon':
         xs = np.array([fr.x(v[0]) for v in s['vs']], dtype=float)
         ys = np.array([fr.y(v[1]) for v in s['vs']], dtype=float)
+        if (len(s['vs']) + s['vs'][0][0]) % 3 == 0:
+            # the same polygon given as vertices relative to an origin
+            ox, oy = 16.0, -8.0
+            return R.PolygonPixelRegion(PixCoord(xs - ox, ys - oy), origin=PixCoord(ox, oy), **kw)
         return R.PolygonPixelRegion(PixCoord(xs, ys), **kw)
     if k == 'cannulus':
         return R.CircleAnnulusPixelRegion(PixCoord(fr.x(s['cx']), fr.y(s['cy'])), fr.len(s['r1']), fr.len(s['r2']), **kw)
